@@ -56,9 +56,11 @@ def main():
                                    "obligations": cov.get("coverage", {}).get("obligations"), "discharged": cov.get("coverage", {}).get("discharged"), "level": cov.get("level")}
         d = os.path.join(VERIF, "benign", name)
         os.makedirs(d, exist_ok=True)
-        shutil.copy(patch, os.path.join(d, "patch.diff"))
+        if os.path.abspath(patch) != os.path.join(d, "patch.diff"):
+            shutil.copy(patch, os.path.join(d, "patch.diff"))
         if why != "-":
-            shutil.copy(why, os.path.join(d, "why.txt"))
+            if os.path.abspath(why) != os.path.join(d, "why.txt"):
+                shutil.copy(why, os.path.join(d, "why.txt"))
             meta["description"] = open(why).read().strip()
         meta["false_alarm"] = any(c["exit"] != 0 or c["violation_lines"] for c in meta["checks"].values())
         json.dump(meta, open(os.path.join(d, "meta.json"), "w"), indent=1)
